@@ -1015,7 +1015,7 @@ def oracle_case(case, impl, viol, stats, om, model_q=None):
                     {"kind": "law", "pop": [to_json(o["tree"]) for o in pop], "split": k, "route": route,
                      "a": spa["q"] + spa["att"] + spa["comp"], "b": spb["q"] + spb["att"] + spb["comp"]}))
     oracle_gets(case, impl, viol, stats, model_q[len(case["queries"]):] if model_q is not None else None,
-                vals, vals_text, flagged, flagged_fs2)
+                vals, vals_text, flagged, flagged_fs2, om)
 
 
 def ref_versions(vals, gid, fl):
@@ -1033,7 +1033,7 @@ def ref_versions(vals, gid, fl):
     return sorted(out)
 
 
-def oracle_gets(case, impl, viol, stats, model_g, vals, vals_text, flagged, flagged_fs2):
+def oracle_gets(case, impl, viol, stats, model_g, vals, vals_text, flagged, flagged_fs2, om):
     """get / all_versions directly and through composites: all_versions(id) is exactly the stored versions of id on
     which every attached and every composite filter holds; the answer of get, if any, is one of them."""
     pop = case["pop"]
@@ -1062,7 +1062,21 @@ def oracle_gets(case, impl, viol, stats, model_g, vals, vals_text, flagged, flag
             for op, line, kind, keys in problems:
                 finding, outside_layout = None, False
                 fl_keys = flagged if route in ("fs", "cfs") else flagged_fs2 if route == "c2" else set()
-                if op == "all_versions":
+                why_ty = tyid_ok(fl) if route != "mo" and route != "cmo" else set()
+                if om == "OptAnyValue" and "nonstring" in why_ty and line in ("EXC AttributeError", "EXC TypeError"):
+                    finding = FINDINGS["nonstring"]      # the model line is compared below (all_versions)
+                    if op == "get" and not (model_g is None or model_g[gi][ri] == line):
+                        finding = None
+                elif op == "all_versions" and om == "OptAnyValue" and "in-string" in why_ty and kind == "OK" and set(keys) <= set(expect):
+                    finding = FINDINGS["in-string"]
+                elif expect_text is None and line == "EXC TypeError" and any(isinstance(f["v"], dict) and "$t" in f["v"] for f in fl) \
+                        and any(not o2["reg"] and o2["id"] == g["id"] for o2 in pop):
+                    finding = FINDINGS["ts"]      # datetime filter value against timestamp text: TypeError
+                    if op == "get" and not (model_g is None or model_g[gi][ri] == line):
+                        finding = None
+                if finding is not None:
+                    pass
+                elif op == "all_versions":
                     if kind == "OK" and expect_text is not None and expect_text != expect and keys == expect_text:
                         finding = FINDINGS["ts"]
                     elif kind == "OK" and fl_keys and set(keys) <= set(expect) and set(expect) - set(keys) <= fl_keys:
@@ -1072,11 +1086,11 @@ def oracle_gets(case, impl, viol, stats, model_g, vals, vals_text, flagged, flag
                         outside_layout = True
                         if expect_text != expect:
                             finding = FINDINGS["ts"]
-                    if (finding or outside_layout) and model_g is not None and \
-                            not same_line("mo" if route in ("mo", "cmo") else "fs", line, model_g[gi][ri]):
-                        finding, outside_layout = None, False
                 elif kind == "ONE" and expect_text is not None and keys[0] in expect_text:
                     finding = FINDINGS["ts"]
+                if op == "all_versions" and (finding or outside_layout) and model_g is not None and \
+                        not same_line("mo" if route in ("mo", "cmo") else "fs", line, model_g[gi][ri]):
+                    finding, outside_layout = None, False
                 if outside_layout:
                     stats["outside_layout_hypothesis"] += 1
                     if finding is None:
